@@ -63,6 +63,8 @@ def grid_reward(pat, rnd, RU, pt, box):
         return rnd.choice([0.0, 0.5, 0.5, 1.0])
     if pat == "ints":          # a graded objective: integer-valued rewards (handed over as int / numpy int by the drivers)
         return float(rnd.randint(0, 3))
+    if pat == "spike" and rnd.random() < 0.2:      # a smooth objective with occasional 0/1 outliers: within-cell variance rises and falls
+        return float(rnd.randint(0, 1))
     D = len(box)
     rel = [int((pt[x] - box[x][0]) / (box[x][1] - box[x][0]) * (1 << 30)) for x in range(D)]
     v = A.peak_reward(rel, rnd, RU, noise=(pat == "peak"))
